@@ -2,6 +2,7 @@ package main
 
 import (
 	"fmt"
+	"os"
 	"go/types"
 	"strings"
 
@@ -77,7 +78,7 @@ func (x *Exec) call(fr *Frame, st *State, ci ssa.CallInstruction) []string {
 	if fn != nil && x.canInline(fr, fn, key) {
 		return x.inlineCall(fr, st, fn, args, bindings)
 	}
-	return x.havocCall(fr, st, ci, key, sig)
+	return x.havocCall(fr, st, ci, key, sig, args)
 }
 
 func (x *Exec) resultTypes(sig *types.Signature) []types.Type {
@@ -88,9 +89,38 @@ func (x *Exec) resultTypes(sig *types.Signature) []types.Type {
 	return out
 }
 
-func (x *Exec) havocCall(fr *Frame, st *State, ci ssa.CallInstruction, key string, sig *types.Signature) []string {
+var debugHavoc = os.Getenv("GOVC_DEBUG_HAVOC")
+
+func (x *Exec) traceHavoc(ci ssa.CallInstruction, key string, keys []string) {
+	if debugHavoc == "" {
+		return
+	}
+	for _, k := range keys {
+		if strings.Contains(k, debugHavoc) {
+			fmt.Fprintf(os.Stderr, "havoc %s by call %s at %s\n", k, key, x.p.pos(ci.Pos()))
+		}
+	}
+}
+
+func (x *Exec) havocCall(fr *Frame, st *State, ci ssa.CallInstruction, key string, sig *types.Signature, args []string) []string {
 	keys := x.p.effects.callEffects(fr.fn, ci)
-	x.havocKeys(st, keys)
+	x.traceHavoc(ci, key, keys)
+	_, isClosure := ci.Common().Value.(*ssa.MakeClosure)
+	if !isClosure && !ci.Common().IsInvoke() && ci.Common().StaticCallee() == nil {
+		// a function value: only one created by this execution can have captured our locals
+		if _, known := x.closures[x.val(fr, st, ci.Common().Value)]; known {
+			isClosure = true
+		}
+	}
+	if isClosure {
+		// a closure (or unknown function value) may hold captured variables: local objects are not preserved
+		saved := x.liveObjs
+		x.liveObjs = nil
+		x.havocKeysCall(st, keys, args)
+		x.liveObjs = saved
+	} else {
+		x.havocKeysCall(st, keys, args)
+	}
 	var res []string
 	for _, rt := range x.resultTypes(sig) {
 		res = append(res, x.freshOfType(st, "call", rt))
@@ -143,6 +173,9 @@ func (x *Exec) canInline(fr *Frame, fn *ssa.Function, key string) bool {
 	n := 0
 	for _, b := range fn.Blocks {
 		n += len(b.Instrs)
+	}
+	if x.mode == "sweep" {
+		return n <= 120
 	}
 	return n <= 400
 }
@@ -213,9 +246,11 @@ func (x *Exec) callByContract(fr *Frame, st *State, ci ssa.CallInstruction, fc *
 	// frame
 	if !fc.Pure {
 		if fc.HasMod {
-			x.havocKeys(st, x.expandModifies(fc, env))
+			x.havocKeysCall(st, x.expandModifies(fc, env), args)
 		} else {
-			x.havocKeys(st, x.p.effects.callEffects(fr.fn, ci))
+			ks := x.p.effects.callEffects(fr.fn, ci)
+			x.traceHavoc(ci, fc.Key, ks)
+			x.havocKeysCall(st, ks, args)
 		}
 	}
 	// results
@@ -432,7 +467,7 @@ func (x *Exec) builtin(fr *Frame, st *State, ci ssa.CallInstruction, name string
 		}
 		return []string{"any_zero"}
 	case "clear":
-		return x.havocCall(fr, st, ci, "builtin.clear", c.Signature())
+		return x.havocCall(fr, st, ci, "builtin.clear", c.Signature(), args)
 	}
 	var res []string
 	if sig := c.Signature(); sig != nil {
@@ -576,6 +611,9 @@ func (x *Exec) checkCallsites(fr *Frame, st *State, ci ssa.CallInstruction, key 
 			if !ok {
 				continue
 			}
+		}
+		if cc.InFunc != nil && !cc.InFunc.MatchString(shortFn(site)) {
+			continue
 		}
 		skip := false
 		for _, in := range cc.NotIn {
